@@ -248,6 +248,26 @@ OPS = ["call f", "call g", "call d", "call d (no aux tuple)", "call f on system 
        "pickle round trip", "call f on sibling"]
 
 
+def cache_key_obligation(run, it):
+    """the cache protocol distinguishes entries by key only: two (system object, method) pairs must never share a key, or one
+    system is served the other's values (id() is injective over live objects: A11).  Imported by C02 / C04 / C18."""
+    P = "states."
+
+    def keys_injective(ctx):
+        # the protocol below distinguishes entries by key only: two (system object, method) pairs must never share a key, or one
+        # system is served the other's values (id() is injective over live objects: A11)
+        u = Universe(it, ctx)
+        ks = list(u.key.items())
+        clash = [(a[0], b[0]) for i, a in enumerate(ks) for b in ks[i + 1:] if a[1] == b[1]]
+        run.ob(P + "_cache_key_func/distinct-keys-for-distinct-system-objects-and-methods", core.DISCHARGED if not clash else core.FAILED, "pyvc-enum",
+               detail="" if not clash else f"same cache key for {clash[0][0]} and {clash[0][1]} (method, system): {ks[0][1] if False else dict(ks)[clash[0][0]]!r}",
+               witness=None if not clash else {"clash": [list(c) for c in clash[0]]},
+               text="_cache_key_func(system, method) is injective in the pair (system object, method name) -- two systems of the same class on one state do not share entries")
+    it.explore(keys_injective, "cache-keys")
+    run.function("mici.states._cache_key_func")
+
+
+
 def protocol(run, it, prop):
     run.function("mici.states.cache_in_state")
     run.function("mici.states.cache_in_state_with_aux")
@@ -256,6 +276,8 @@ def protocol(run, it, prop):
     all_cfgs = configs()
     NCH = 16
     P = "states."
+
+    cache_key_obligation(run, it)
 
     def harness(ctx):
         chunk = ctx.choose(NCH, "chunk")
@@ -369,6 +391,11 @@ def protocol(run, it, prop):
                         got = ex.call(u.f, [u.sysA, new], {})
                         ok = got == u.scratch(("f", "A"), new)
                         ctx.run.ob(P + "pickle/invalidates-after-round-trip", core.DISCHARGED if ok else core.FAILED, "pyvc-enum", detail="" if ok else desc)
+                        # pickling is an observation: the live family (the pickled state and the states sharing its dependency table) keeps Inv
+                        post = u.inv(fam)
+                        ctx.run.ob(P + "pickle/leaves-the-live-family-intact", core.DISCHARGED if post is None else core.FAILED, "pyvc-enum",
+                                   detail="" if post is None else f"after pickling s: {post}; {desc}",
+                                   text="__getstate__ does not modify the pickled state, its cache or the dependency table it shares with its copies")
                         continue
                 except PyRaise as pr:
                     ctx.run.ob(P + "protocol/no-exception", core.FAILED, "pyvc-enum", detail=f"{op}: {exc_name(pr.exc)} {pr.exc.attrs.get('args')}; {desc}")
